@@ -333,8 +333,19 @@ func finish(prop, tier string, seed uint64, nw int, outs []*workerOut, nRace int
 	var viol json.RawMessage
 	violIdx := 1 << 62
 	var searchMs int64
+	// An infrastructure problem in one worker must not hide a violation another
+	// worker found and wrote a replay for: the violation is reported (exit 1),
+	// the trouble is mentioned. Without a violation any trouble is exit 2.
+	anyViolation := false
+	for _, o := range outs {
+		anyViolation = anyViolation || len(o.Violation) > 0
+	}
 	for _, o := range outs {
 		if o.Infra != "" {
+			if anyViolation {
+				fmt.Fprintf(os.Stderr, "note: a worker also reported an infrastructure problem: %.300s\n", o.Infra)
+				continue
+			}
 			os.RemoveAll(scratch)
 			infra("%s", o.Infra)
 		}
@@ -419,33 +430,33 @@ func finish(prop, tier string, seed uint64, nw int, outs []*workerOut, nRace int
 	}
 	sort.Strings(knownList)
 	cov := map[string]interface{}{
-		"evaluations":                  agg.Runs,
-		"distinct_nontrivial":          len(distinct),
-		"rule":                         ruleFor(prop),
-		"samples":                      agg.Samples,
-		"nontrivial_runs":              agg.Interesting,
-		"scheduler_steps":              agg.Steps,
-		"preemptions":                  agg.Preempt,
-		"simulated_seconds":            float64(agg.SimNs) / 1e9,
-		"runs_per_hour":                int64(float64(agg.Runs) / searchS * 3600),
-		"seeds_per_hour":               int64(float64(agg.Runs) / searchS * 3600),
-		"search_wall_s":                searchS,
-		"build_wall_s":                 buildS,
-		"workers":                      nw,
-		"race_build_workers":           nRace,
-		"race_build_runs":              raceRuns,
-		"determinism_sample":           detSample,
-		"faults_fired":                 agg.Faults,
-		"probes":                       agg.Probes,
-		"strategy_mix":                 agg.Strategies,
-		"stacks":                       agg.Stacks,
-		"truncated_runs":               agg.Truncated,
-		"leaked_goroutines":            agg.Leaked,
-		"known_findings_seen":          knownList,
-		"tree":                         treeIdentity(),
-		"components_real":              "package tally, m3, m3/thriftudp, m3/customtransports, internal/cache, internal/identity, prometheus, instrument (mechanically instrumented copy of /repo's working tree); vendored thrift codec, prometheus client_golang, murmur3 (un-instrumented)",
-		"components_stubbed":           "sync, sync/atomic, go.uber.org/atomic (scheduling point + real primitive), hash/maphash, runtime.GOMAXPROCS/Gosched, net UDP sockets (in-memory), Go scheduler and clock (seeded scheduler on testing/synctest), StatsReporter/CachedStatsReporter (recording)",
-		"exhaustive":                   false,
+		"evaluations":         agg.Runs,
+		"distinct_nontrivial": len(distinct),
+		"rule":                ruleFor(prop),
+		"samples":             agg.Samples,
+		"nontrivial_runs":     agg.Interesting,
+		"scheduler_steps":     agg.Steps,
+		"preemptions":         agg.Preempt,
+		"simulated_seconds":   float64(agg.SimNs) / 1e9,
+		"runs_per_hour":       int64(float64(agg.Runs) / searchS * 3600),
+		"seeds_per_hour":      int64(float64(agg.Runs) / searchS * 3600),
+		"search_wall_s":       searchS,
+		"build_wall_s":        buildS,
+		"workers":             nw,
+		"race_build_workers":  nRace,
+		"race_build_runs":     raceRuns,
+		"determinism_sample":  detSample,
+		"faults_fired":        agg.Faults,
+		"probes":              agg.Probes,
+		"strategy_mix":        agg.Strategies,
+		"stacks":              agg.Stacks,
+		"truncated_runs":      agg.Truncated,
+		"leaked_goroutines":   agg.Leaked,
+		"known_findings_seen": knownList,
+		"tree":                treeIdentity(),
+		"components_real":     "package tally, m3, m3/thriftudp, m3/customtransports, internal/cache, internal/identity, prometheus, instrument (mechanically instrumented copy of /repo's working tree); vendored thrift codec, prometheus client_golang, murmur3 (un-instrumented)",
+		"components_stubbed":  "sync, sync/atomic, go.uber.org/atomic (scheduling point + real primitive), hash/maphash, runtime.GOMAXPROCS/Gosched, net UDP sockets (in-memory), Go scheduler and clock (seeded scheduler on testing/synctest), StatsReporter/CachedStatsReporter (recording)",
+		"exhaustive":          false,
 	}
 	ev := map[string]interface{}{
 		"property_id": prop,
